@@ -135,17 +135,22 @@ OverwriteOld_En(k, v, mv, ru) ==
     /\ Ok /\ k \in KeysOf(O) /\ mv \in CarrySets(St) /\ ru <= Min(HB!Lost(Main), Cardinality(mv))
 
 \* the same calls interrupted by a Hash panic during their carry (C07)
-F_InsertNew_Post(k, v, done, victim) ==
+\* (ru = how many of the insertions made before the panic -- the new key's and the relocations' --
+\* landed on tombstones)
+F_InsertNew_Post(k, v, done, victim, ru) ==
     IF mG = 0
     THEN LET G == Grown(St, 1) IN CarryFault([G EXCEPT !.M = {<<k, v>>}, !.mG = G.mG - 1], done, victim, 0)
-    ELSE CarryFault([St EXCEPT !.M = M \cup {<<k, v>>}, !.mG = mG - 1], done, victim, 0)
-F_InsertNew_En(k, v, done, victim) ==
+    ELSE LET reuse1 == ru > 0
+             T1 == HB!InsNoGrow(Main, reuse1)
+         IN CarryFault([St EXCEPT !.M = M \cup {<<k, v>>}, !.mG = T1.g], done, victim, IF reuse1 THEN ru - 1 ELSE 0)
+F_InsertNew_En(k, v, done, victim, ru) ==
     /\ Ok /\ k \notin KeysOf(All)
-    /\ IF mG = 0 THEN (~oP /\ M # {} /\ GrowB(mI, 1) # HB!Overflow /\ <<done, victim>> \in CarryFaultSets(Grown(St, 1)))
-       ELSE (oP /\ <<done, victim>> \in CarryFaultSets(St))
-F_OverwriteOld_Post(k, v, done, victim) ==
-    CarryFault([St EXCEPT !.O = Drop(O, {k}) \cup {<<k, v>>}], done, victim, 0)
-F_OverwriteOld_En(k, v, done, victim) == Ok /\ k \in KeysOf(O) /\ <<done, victim>> \in CarryFaultSets(St)
+    /\ IF mG = 0 THEN (ru = 0 /\ ~oP /\ M # {} /\ GrowB(mI, 1) # HB!Overflow /\ <<done, victim>> \in CarryFaultSets(Grown(St, 1)))
+       ELSE (oP /\ <<done, victim>> \in CarryFaultSets(St) /\ ru <= Min(HB!Lost(Main), 1 + Cardinality(done)) /\ (ru > 0 \/ mG > 0))
+F_OverwriteOld_Post(k, v, done, victim, ru) ==
+    CarryFault([St EXCEPT !.O = Drop(O, {k}) \cup {<<k, v>>}], done, victim, ru)
+F_OverwriteOld_En(k, v, done, victim, ru) ==
+    Ok /\ k \in KeysOf(O) /\ <<done, victim>> \in CarryFaultSets(St) /\ ru <= Min(HB!Lost(Main), Cardinality(done))
 
 (***************************************************************************)
 (* removal paths                                                           *)
@@ -195,13 +200,14 @@ Reserve_En(n, ru) == Ok /\ ru <= (IF oP /\ ReservePath(n) = "grow" THEN Min(cN, 
 
 \* reserve's carry_all() interrupted by a Hash panic: `done` moved (growing inserts), `victim` lost,
 \* the rest stays in the old table, no new table is installed
-F_Reserve_Post(done, victim) ==
-    LET T1 == HB!InsGrowNR(Main, Cardinality(done), 0) IN
+F_Reserve_Post(done, victim, ru) ==
+    LET T1 == HB!InsGrowNR(Main, Cardinality(done), ru) IN
     [St EXCEPT !.M = M \cup Pick(O, done), !.mB = T1.b, !.mG = T1.g, !.O = Drop(O, done \cup {victim}),
                !.cur = cur \ (done \cup {victim}), !.cN = cN - Cardinality(done) - 1]
-F_Reserve_En(n, done, victim) ==
+F_Reserve_En(n, done, victim, ru) ==
     /\ Ok /\ oP /\ ReservePath(n) = "grow"
     /\ done \subseteq cur /\ victim \in cur \ done /\ cN = Cardinality(cur)
+    /\ ru <= Min(HB!Lost(Main), Cardinality(done))
 
 ShrinkNeed == mI + (IF oP THEN oI + CeilDiv(oI, R) ELSE 0)
 ShrinkTo_Post(m) ==
